@@ -68,13 +68,13 @@ impl Property for C10 {
     }
     fn cases(&self, tier: Tier) -> u64 {
         match tier {
-            Tier::Quick => 12_000,
+            Tier::Quick => 100_000,
             Tier::Thorough => 10_000_000,
         }
     }
     fn min_nontrivial(&self, tier: Tier) -> u64 {
         match tier {
-            Tier::Quick => 2_500,
+            Tier::Quick => 20_000,
             Tier::Thorough => 2_000_000,
         }
     }
